@@ -565,6 +565,11 @@ func runC20(c *RunCtx) {
 	if c.Thorough && t.Intn(4) == 0 {
 		ntasks = 5 + t.Intn(4)
 	}
+	if t.Intn(16) == 0 {
+		// many goroutines inside the library at once (process-wide counters, limits, semaphores)
+		ntasks = 9 + t.Intn(8)
+		c.Probe("many-tasks")
+	}
 	var base any
 	plans := make([][]*parOp, ntasks)
 	for ti := range plans {
